@@ -39,6 +39,10 @@ func (r *Run) probeAgent(teids []uint32) (st agentState, teidUsed []bool) {
 			teidUsed = append(teidUsed, a.VerifTEIDAllocated(t))
 		}
 	})
+	if st.poolFree < 0 || st.poolHeld < 0 || st.teidsUsed < 0 {
+		// an internal the bridge names is gone (refactored): that comparison is skipped
+		r.Probe("white-box-probe-unknown")
+	}
 	return
 }
 
